@@ -153,6 +153,10 @@ def summarise_return(I, env, v):
             if (v.lo or 0) == 0 and not v.pre:
                 first = first | frozenset()
         nonascii = allcls - S.ASCII
+
+        def exact(c):
+            ex_ = B.exact_chars(env.cls(c))
+            return ''.join(sorted(ex_)) if ex_ is not None else None
         covered = set()
         algs = set()
         for f in env.facts:
@@ -184,6 +188,7 @@ def summarise_return(I, env, v):
                 'nonascii': sorted(nonascii), 'nonascii_cats': sorted(cats), 'nonascii_chars': ''.join(sorted(B.sample[b] for b in nonascii))[:300], 'nonascii_desc': B.describe(nonascii)[:80] if nonascii else '',
                 'imprecise': bool(v.imprecise), 'desc': S.describe(env, v)[:160],
                 'uncovered': uncovered, 'algorithms': sorted(algs), 'fixed': v.fixed,
+                'vshape': None if v.fixed else {'pre': [exact(c) for c in v.pre], 'body': exact(v.body), 'suf': [exact(c) for c in v.suf]},
                 'vacuous': sorted('%s.%s' % (f[1], f[2]) for f in env.facts if isinstance(f, tuple) and f and f[0] == 'vacuous'),
                 'input_uncovered': [list(f[1]) for f in env.facts if isinstance(f, tuple) and f and f[0] == 'uncov'],
                 'input_desc': [f[2] for f in env.facts if isinstance(f, tuple) and f and f[0] == 'uncov'],
@@ -684,7 +689,7 @@ def _pool_map(fn, items, jobs):
 
 def analyse_validate(names=None, jobs=None, use_cache=True):
     jobs = jobs or min(16, os.cpu_count() or 1)
-    key = tree_digest('validate-v4')
+    key = tree_digest('validate-v5')
     cpath = os.path.join(os.environ.get('SA_CACHE', os.path.join(VERIF, '.cache')), 'validate-%s.pkl' % key[:20])
     if use_cache and names is None and os.path.exists(cpath):
         try:
